@@ -649,7 +649,8 @@ fn gen_atom(rng: &mut Rng, edges: &[BigInt], want_finite: Option<bool>) -> SE {
                 _ => SE::Iota(if rng.chance(1, 4) { rng.pick(edges).clone() } else { BigInt::from(rng.range(-5, 5)) }),
             },
             14 => SE::Iterate(
-                rng.pick(&["add:1", "add:3", "mul:2", "mul:-3", "sq", "neg", "const:4", "add:-2"]).to_string(),
+                // kind-preserving functions only: every element of the stream is an integer
+                rng.pick(&["add:1", "add:3", "mul:2", "mul:-3", "neg", "const:4", "add:-2"]).to_string(),
                 vi(rng.range(-3, 3)),
             ),
             _ => SE::Iota(BigInt::from(rng.range(-5, 5))),
@@ -1057,7 +1058,7 @@ fn main() {
     let thorough = args.tier == "thorough";
     let mut rng = Rng::new(args.seed);
     let edges = edge_ints();
-    let (n_random, nobs) = if thorough { (120_000usize, 12usize) } else { (8_000usize, 11usize) };
+    let (n_random, nobs) = if thorough { (40_000usize, 12usize) } else { (8_000usize, 11usize) };
     let mut uniq = 0usize;
     let mut cases: Vec<Case> = vec![];
     for e in sweep(thorough) {
